@@ -922,6 +922,9 @@ class Spec:
             return V('bool', z3.BoolVal(ok))
         if fn == 'validated':
             return V('bool', self.validated_goal(ex, st))
+        if fn == 'flagwon':
+            # this path won the resize flag (a successful CAS on m.resizing)
+            return V('bool', z3.BoolVal(any(t[0] == 'flagwon' for t in st.trace)))
         if fn == 'currenttable':
             # the value of the table pointer loaded after this path last won the resize flag (nil if there is none):
             # while the flag is held no other goroutine replaces the table, so that value is the current table
@@ -1328,7 +1331,7 @@ class Spec:
         snap.lets = dict(st.lets)
         st.lk_old = snap
 
-    TRACE_FNS = {'currenttable', 'validatedtable', 'nacquire', 'nblocking', 'nheld', 'holds', 'ncb', 'ncall', 'lastret', 'validated', 'monitorOK', 'itercalls',
+    TRACE_FNS = {'flagwon', 'currenttable', 'validatedtable', 'nacquire', 'nblocking', 'nheld', 'holds', 'ncb', 'ncall', 'lastret', 'validated', 'monitorOK', 'itercalls',
                  'iterselect', 'selectchan', 'tickerchan', 'spawnedbefore', 'spawnfn', 'finalizer', 'closed'}
 
     def mentions_trace(self, e):
